@@ -52,6 +52,14 @@ def main(argv) -> int:
         if tier == "thorough" and not replay:
             st = _selftest(prop)
             rep.extra["selftest"] = st
+            inv = _refactor_invariance(prop) if not unlisted else {"skipped": "the tree already violates the property"}
+            rep.extra["refactor_invariance"] = inv
+            noisy = [k for k, v in inv.items() if isinstance(v, str) and v.startswith("NOT SILENT")]
+            if noisy and not unlisted:
+                print(f"ANALYSIS-ERROR property={prop}: the check raises an alarm on behaviour-preserving transformations of the current tree: {noisy}")
+                wall = time.time() - t0
+                core.write_evidence(rep, seed, wall, 0, known_hits, front)
+                return 2
             if st.get("failed") and not unlisted:
                 # the checker lost detection power (or raises a false alarm) on its own mutant catalogue
                 print(f"ANALYSIS-ERROR property={prop}: self-test regression: {st['failed']}")
@@ -73,6 +81,42 @@ def main(argv) -> int:
         if name != "AnalysisError":
             traceback.print_exc()
         return 2
+
+
+def _refactor_invariance(prop):
+    """Thorough tier: apply each behaviour-preserving whole-tree transformation (tools/refactor_sweep.py) to a scratch copy
+    of the current tree and re-run this property's quick check on it; it must stay silent (exit 0)."""
+    import shutil
+    import subprocess
+    import tempfile
+    from concurrent.futures import ThreadPoolExecutor
+    here = os.path.dirname(os.path.dirname(os.path.abspath(__file__)))
+    sys.path.insert(0, os.path.join(here, "tools"))
+    try:
+        import refactor_sweep as rs
+    except Exception as e:  # noqa: BLE001
+        return {"skipped": f"refactor_sweep not importable ({type(e).__name__})"}
+    from . import frontend
+    kinds = ["unparse", "flipcmp", "invertif", "rename3", "extractcond", "cellify", "earlyreturn"]
+
+    def one(kind):
+        tmp = tempfile.mkdtemp(prefix="rxsa_inv_")
+        try:
+            shutil.copytree(os.path.join(frontend.REPO_ROOT, "reactivex"), os.path.join(tmp, "reactivex"), ignore=shutil.ignore_patterns("__pycache__"))
+            try:
+                rs.transform(tmp, kind)
+            except Exception as e:  # noqa: BLE001
+                return kind, f"skipped: transformation failed ({type(e).__name__}: {e})"[:200]
+            env = dict(os.environ, RXSA_REPO=tmp, RXSA_EVID_DIR=os.path.join(tmp, "evidence"), VERIF_TIER="quick")
+            p = subprocess.run([sys.executable, "-m", "sa.run", prop, "quick"], cwd=here, env=env, capture_output=True, text=True)
+            if p.returncode == 0:
+                return kind, "silent"
+            last = [l for l in p.stdout.splitlines() if l.startswith(("VIOLATION", "ANALYSIS-ERROR", "  rule="))][:3]
+            return kind, f"NOT SILENT (exit {p.returncode}): {' | '.join(last)}"[:300]
+        finally:
+            shutil.rmtree(tmp, ignore_errors=True)
+    with ThreadPoolExecutor(max_workers=7) as ex:
+        return dict(ex.map(one, kinds))
 
 
 def _selftest(prop):
